@@ -84,7 +84,7 @@ class StubSpa:
 def run(ctx):
     ctx.rule = ("bit-exact (float.hex) correspondence of the real GeckoTempStructAccessor get/set (both setters, both structure classes, both units) with "
                 "Model/Temp.v on boundary + random raw words and decimal / random float temperatures; real GeckoWaterHeater limits, unit symbol and "
-                "current_operation for all flag-presence combinations vs the model; every shipped temperature item is checked to be a 2-byte Word item; "
+                "current_operation for all flag-presence combinations vs the model; histories on ONE structure in which the unit setting is switched under unchanged stored words; every shipped temperature item is checked to be a 2-byte Word item; "
                 "non-trivial = distinct (unit, value) whose float result is not an integer")
     ctx.may_use_stdlib_axioms = ("c14_presentation_preserves_order",)
     ctx.prove(timeout=2400)
@@ -177,6 +177,35 @@ def run(ctx):
                     if op != want_op:
                         ctx.fail("heater:operation", "reported operation inconsistent with flags / temperatures",
                                  {"unit": unit, "heating": hp, "cooling": cp, "current_raw": cur, "target_raw": tgt, "reported": op, "expected": want_op})
+    # ONE structure across unit switches: the stored words stay, the unit setting changes under them (what happens when a user
+    # flips the unit) - every reading, the heater's symbol / limits and its target must follow the unit of the moment
+    from geckolib.automation.heater import GeckoWaterHeater
+    for cls in ("sync", "async"):
+        rec = Rec()
+        st = build_struct(cls, rec, "F")
+        heater = GeckoWaterHeater(StubFacade(StubSpa(st)))
+        cur_unit = "F"
+        for w in [657, 684, 720, 270, 0, 65535] + [rng.randrange(65536) for _ in range(60 if ctx.thorough else 14)]:
+            set_word(st, 2, w)
+            for _ in range(3):
+                if rng.random() < 0.7:
+                    cur_unit = "C" if cur_unit == "F" else "F"
+                    b = bytearray(st.status_block)
+                    b[0] = 1 if cur_unit == "C" else 0
+                    st.set_status_block(bytes(b))
+                v = st.accessors["SetpointG"].value
+                exprs.append("chk_get %s %d %s" % (vf.cbool(cur_unit == "C"), w, cfloat(v)))
+                meta.append({"get_after_unit_switch": (cur_unit, w), "impl": v.hex()})
+                ctx.case(("get_switch", cls, cur_unit, w), nontrivial=True)
+                ctx.count("get_after_unit_switch")
+                want = w / 18.0 if cur_unit == "C" else (w + 320) / 10.0
+                sym, lim = heater.temperature_unit, (heater.min_temp, heater.max_temp)
+                if v != want or heater.target_temperature != want:
+                    ctx.fail("temp:stale_after_unit_switch", "after the unit setting changed to %s the stored word %d is presented as %r (heater target %r), not %r"
+                             % (cur_unit, w, v, heater.target_temperature, want), {"class": cls, "unit_now": cur_unit, "raw": w, "presented": v, "expected": want})
+                if (sym == "°C") != (cur_unit == "C") or lim != ((15, 40) if cur_unit == "C" else (59, 104)):
+                    ctx.fail("heater:after_unit_switch", "after the unit setting changed to %s the heater reports symbol %s and limits %r" % (cur_unit, sym, lim),
+                             {"class": cls, "unit_now": cur_unit, "symbol": sym, "limits": lim})
     # shipped temperature items are 2-byte words everywhere
     ntemp = 0
     for m in gen_tables.load_tables():
@@ -193,5 +222,4 @@ def run(ctx):
     ctx.oblige("correspondence:temp_model", not bad, "first disagreements: %r" % (bad[:3],))
     ctx.trusted += ["kernel primitive floats (PrimFloat / Uint63 axioms listed by Print Assumptions)"]
     ctx.assume += ["Python's float parsing of decimal text is the correctly rounded double (modelled as k/100 division)",
-                   "transitivity of IEEE '<' is not proved: the operation theorem is stated on float comparison results, "
-                   "strict monotonicity of the presentation is proved for all adjacent raw words"]
+                   "the order theorem for arbitrary pairs of words relies on the standard library's specification of the primitive floats (FloatAxioms) and Flocq"]
